@@ -70,6 +70,9 @@ func main() {
 		if r := fpfam.SelfTest(); r > rc {
 			rc = r
 		}
+		if r := outfam.SelfTest(); r > rc {
+			rc = r
+		}
 		os.Exit(rc)
 	case "grow":
 		// every specification grown beyond the listed properties, against the CLI
